@@ -16,8 +16,8 @@
   borrow, cash repay, reads, bar changes; accepted or rejected), `update()` that cannot liquidate (`C10QuietUpdate`),
   `supply(tok, ·)` (accepted or rejected, any state), `withdraw(tok, ·)` in a coherent state (accepted or rejected).
   NOT covered (hence the debt-side statement and these are left out, not silently included): `repay(…, repay_with_collateral)`
-  paid out of `tok`'s supply, `change_collateral(tok)` (does not change the scaled balance, but is not proved here), and an
-  `update()` that liquidates.  The same statement for debts (`borrow` / cash `repay`) is `C10_debt_interleaved`.
+  paid out of `tok`'s supply and an `update()` that liquidates.  `change_collateral(tok, ·)` is a ledger step that contributes
+  nothing (`aave_changeCollateral_base`: accepted, rejected or raising, it never changes the scaled balance).  The same statement for debts (`borrow` / cash `repay`) is `C10_debt_interleaved`.
 -/
 import Proofs.C10.Bars
 import Proofs.Lemmas.AaveReject2
@@ -68,6 +68,72 @@ theorem c10Ledger_append (a b : List (Rat × Rat)) (I : Rat) : c10Ledger (a ++ b
 theorem c10Ledger_single (a i I : Rat) : c10Ledger [(a, i)] I = a / i * I := by
   unfold c10Ledger; simp; ring
 
+/-- the entry of `tok` exists and has scaled balance `b` -/
+def C10BaseIs (tok : String) (b : Rat) (s : St) : Prop := ∃ e, AList.get? s.supplies tok = some e ∧ e.base = b
+
+theorem aave_inv_bind_dep {I : St → Prop} {α β : Type} {m : M α} {f : α → M β} (s : St)
+    (hok : ∀ a s1, m s = (.ok a, s1) → I ((f a) s1).2) (herr : ∀ e s1, m s = (.error e, s1) → I s1) :
+    I ((m >>= f) s).2 := by
+  rw [run_bind]
+  rcases h : m s with ⟨r, s1⟩
+  cases r with
+  | ok a => exact hok a s1 h
+  | error e => exact herr e s1 h
+
+/-- **`change_collateral(tok, ·)` never changes the scaled balance** — accepted, rejected (health factor too low, token not
+    usable as collateral) or raising inside the health-factor read: only the flag is written (and written back). -/
+theorem aave_changeCollateral_base {cx : ACtx} (env : Env) (tok : String) (c : Bool) (s : St) :
+    c10SupBase tok (changeCollateral cx env tok c s).2 = c10SupBase tok s := by
+  have hrest : ∀ info : SupplyInfo, Inv (C10BaseIs tok info.base) (do
+      checkCanCollateral env tok c
+      commitFlag tok { info with coll := c }
+      if !c then do
+        let hf ← onError (healthFactor cx env) (fun s => (commitFlag tok info s).2)
+        if hf.ltR Gen.aaveHfThreshold then do
+          commitFlag tok info
+          M.throw .hfLow
+        else pure ()
+      else pure ()
+      setUpdated) := by
+    intro info
+    have hR : ReadInv cx env (C10BaseIs tok info.base) :=
+      ReadInv.ofIgnoring (fun _ _ h => h) (fun _ _ h => h) (fun _ _ h => h) (fun _ _ h => h) (fun _ _ h => h)
+    have h9 := hR.toReadInv3.healthFactor
+    have hflag : ∀ i : SupplyInfo, i.base = info.base → Inv (C10BaseIs tok info.base) (commitFlag tok i) :=
+      fun i hi => Inv.modify _ (fun s _ => ⟨i, aget_set_self _ _ _, hi⟩)
+    have hupd : Inv (C10BaseIs tok info.base) setUpdated := Inv.modify _ (fun s hs => hs)
+    refine Inv.bind (Inv.checkCanCollateral _ _ _) (fun _ => Inv.bind (hflag _ rfl) (fun _ => ?_))
+    dsimp only
+    split
+    · refine Inv.bind (Inv.onError h9 (fun s _ => ⟨info, aget_set_self _ _ _, rfl⟩)) (fun hf => ?_)
+      split
+      · exact Inv.bind (hflag _ rfl) (fun _ => Inv.bind (Inv.throw _) (fun _ => hupd))
+      · exact hupd
+    · exact hupd
+  unfold changeCollateral guardOpen lookupSupply
+  refine aave_inv_bind_dep (I := fun s' => c10SupBase tok s' = c10SupBase tok s) s ?_ ?_
+  · intro _ s1 h1
+    obtain ⟨_, rfl⟩ := require_ok_inv h1
+    refine aave_inv_bind_dep (I := fun s' => c10SupBase tok s' = c10SupBase tok s) s ?_ ?_
+    · intro info s1 h2
+      obtain ⟨hq, rfl⟩ := queryPos_ok_inv h2
+      have hg : AList.get? s.supplies tok = some info := by
+        cases hx : AList.get? s.supplies tok with
+        | none => rw [hx] at hq; cases hq
+        | some i => rw [hx] at hq; simp only [optRes] at hq; cases hq; rfl
+      split
+      · rfl
+      · obtain ⟨e, he, hb⟩ := hrest info s ⟨info, hg, rfl⟩
+        unfold c10SupBase
+        rw [he, hg]
+        exact hb
+    · intro e s1 h2
+      simp only [run_queryPos, Prod.mk.injEq] at h2
+      rw [← h2.2]
+  · intro e s1 h1
+    rw [run_require] at h1
+    split at h1 <;> (cases h1; try rfl)
+
 /-- the dust rule does not fire: the scaled remainder of an accepted withdrawal is 0 or at least `MIN_TOKEN_VALUE` -/
 def C10NoDustSnap (tok : String) (env : Env) (s : St) (a? : Option Rat) : Prop :=
   c10Accepted (step aaveExact env s (.withdraw tok a?)).1 = true →
@@ -77,7 +143,8 @@ def C10NoDustSnap (tok : String) (env : Env) (s : St) (a? : Option Rat) : Prop :
 /-- the steps the supply ledger follows -/
 def C10SupLedgerStep (tok : String) (env : Env) (s : St) (op : Op) : Prop :=
   ¬ TouchesSupply tok op ∨ (op = .update ∧ C10QuietUpdate env s) ∨ (∃ a c, op = .supply tok a c) ∨
-  (∃ a?, op = .withdraw tok a? ∧ Good aaveExact env s ∧ C10NoDustSnap tok env s a?)
+  (∃ a?, op = .withdraw tok a? ∧ Good aaveExact env s ∧ C10NoDustSnap tok env s a?) ∨
+  (∃ c, op = .changeCollateral tok c)
 
 def C10SupLedgerRun (tok : String) : St → List (Env × Op) → Prop
   | _, [] => True
@@ -91,7 +158,18 @@ theorem c10_unitM_err {m : M Unit} {s s1 : St} {e : Err} (hm : m s = (.error e, 
 /-- one step moves the scaled balance by exactly its ledger line -/
 theorem aave_supBase_step {tok : String} {env : Env} {s : St} {op : Op} (h : C10SupLedgerStep tok env s op) (I : Rat) :
     c10SupBase tok (step aaveExact env s op).2 * I = c10SupBase tok s * I + c10Ledger (c10SupEvent tok env s op) I := by
-  rcases h with hn | ⟨rfl, hq⟩ | ⟨a, c, rfl⟩ | ⟨a?, rfl, hs, hsnap⟩
+  rcases h with hn | ⟨rfl, hq⟩ | ⟨a, c, rfl⟩ | ⟨a?, rfl, hs, hsnap⟩ | ⟨c, rfl⟩
+  rotate_right
+  · have e1 : c10SupBase tok (step aaveExact env s (.changeCollateral tok c)).2 = c10SupBase tok s := by
+      show c10SupBase tok (unitM (changeCollateral aaveExact env tok c) s).2 = _
+      have : (unitM (changeCollateral aaveExact env tok c) s).2 = (changeCollateral aaveExact env tok c s).2 := by
+        unfold unitM mapM'
+        rcases changeCollateral aaveExact env tok c s with ⟨r, s1⟩
+        cases r <;> rfl
+      rw [this]; exact aave_changeCollateral_base env tok c s
+    have e2 : c10SupEvent tok env s (.changeCollateral tok c) = [] := by
+      unfold c10SupEvent; split <;> rfl
+    rw [e1, e2, c10Ledger_nil, add_zero]
   · have e1 : c10SupBase tok (step aaveExact env s op).2 = c10SupBase tok s := by
       unfold c10SupBase; rw [C10_supply_untouched op hn env s]
     have e2 : c10SupEvent tok env s op = [] := by
@@ -453,7 +531,7 @@ example : C10SupLedgerRun "WETH" c10iSt c10iHist := by
   have g6 := C13_step_coherent hE1.1 hE1.2 _ g5 (.read .healthFactor) (by simp)
   refine ⟨Or.inr (Or.inr (Or.inl ⟨_, _, rfl⟩)), Or.inr (Or.inl ⟨rfl, Or.inr ⟨g1, rfl, by unfold C10HfOutside; decide +kernel⟩⟩),
     Or.inl (by simp [TouchesSupply]), Or.inr (Or.inr (Or.inl ⟨_, _, rfl⟩)), Or.inr (Or.inr (Or.inl ⟨_, _, rfl⟩)),
-    Or.inl (by simp [TouchesSupply]), Or.inr (Or.inr (Or.inr ⟨_, rfl, g6, ?_⟩)), trivial⟩
+    Or.inl (by simp [TouchesSupply]), Or.inr (Or.inr (Or.inr (Or.inl ⟨_, rfl, g6, ?_⟩))), trivial⟩
   intro _ hlt
   exact absurd hlt (by decide +kernel)
 /-- the same run satisfies the hypothesis of `C10_supply_interleaved_run` (no `Good` to establish by hand) -/
@@ -467,7 +545,7 @@ example : C10SupLedgerRunOK "WETH" c10bEnv0 c10iSt c10iHist := by
     ⟨hE1.1, hE1.2, ?_, ?_⟩, fun _ => Or.inl (by simp [TouchesSupply]),
     rfl, fun _ => Or.inr (Or.inr (Or.inl ⟨_, _, rfl⟩)), rfl, fun _ => Or.inr (Or.inr (Or.inl ⟨_, _, rfl⟩)),
     rfl, fun _ => Or.inl (by simp [TouchesSupply]),
-    rfl, fun hg => Or.inr (Or.inr (Or.inr ⟨_, rfl, hg.resolve_left (by simp), ?_⟩)), trivial⟩
+    rfl, fun hg => Or.inr (Or.inr (Or.inr (Or.inl ⟨_, rfl, hg.resolve_left (by simp), ?_⟩))), trivial⟩
   · intro k hk
     have : keys (step aaveExact c10bEnv0 (step aaveExact c10bEnv0 c10iSt (.supply "WETH" 11 true)).2 .update).2.supplies = ["WETH"] := by
       decide +kernel
@@ -481,5 +559,11 @@ example : C10SupLedgerRunOK "WETH" c10bEnv0 c10iSt c10iHist := by
 /-- … and the formula gives the balance: scaled 10 + 10 − 5 = 15, i.e. 18.15 WETH at index 1.21 -/
 example : c10Ledger (c10SupEvents "WETH" c10iSt c10iHist) (121/100) = 1815/100 ∧
     c10SupBase "WETH" (runHist aaveExact c10iSt c10iHist) * (121/100) = 1815/100 := by decide +kernel
+
+/-- `change_collateral` as a ledger step: the flag of the 11 WETH supply (scaled 10) is switched off, the scaled balance stays 10 -/
+example : C10SupLedgerStep "WETH" c10bEnv0 c10bS1 (.changeCollateral "WETH" false) ∧
+    (step aaveExact c10bEnv0 c10bS1 (.changeCollateral "WETH" false)).2.supplies = [("WETH", ⟨10, false, 11/10⟩)] ∧
+    c10SupBase "WETH" (step aaveExact c10bEnv0 c10bS1 (.changeCollateral "WETH" false)).2 = 10 :=
+  ⟨Or.inr (Or.inr (Or.inr (Or.inr ⟨_, rfl⟩))), by decide +kernel, by decide +kernel⟩
 
 end Demeter
